@@ -2,16 +2,29 @@
   Line-protocol driver: one JSON array per input line, one JSON value per output line.
   Imports model files only (core-only) plus Lean.Data.Json, so it links as a `lean_exe`.
 -/
-import GormModel.Drv.C15
-import GormModel.Drv.C17
 import GormModel.Drv.Gen
-import GormModel.Drv.C13
+import GormModel.Drv.C01
+import GormModel.Drv.C02
+import GormModel.Drv.C03
+import GormModel.Drv.C04
+import GormModel.Drv.C06
+import GormModel.Drv.C07
+import GormModel.Drv.C08
+import GormModel.Drv.C09
+import GormModel.Drv.C10
 import GormModel.Drv.C11
+import GormModel.Drv.C12
+import GormModel.Drv.C13
+import GormModel.Drv.C14
+import GormModel.Drv.C15
+import GormModel.Drv.C16
+import GormModel.Drv.C17
+import GormModel.Drv.C20
 open Lean Gorm Gorm.Drv
 
 def handle (args : Array Json) : Option Json := do
   let op ← jStr? (arg args 0)
-  (handleC15 op args) <|> (handleC17 op args) <|> (handleGen op args) <|> (handleC13 op args) <|> (handleC11 op args)
+  (handleGen op args) <|> (handleC01 op args) <|> (handleC02 op args) <|> (handleC03 op args) <|> (handleC04 op args) <|> (handleC06 op args) <|> (handleC07 op args) <|> (handleC08 op args) <|> (handleC09 op args) <|> (handleC10 op args) <|> (handleC11 op args) <|> (handleC12 op args) <|> (handleC13 op args) <|> (handleC14 op args) <|> (handleC15 op args) <|> (handleC16 op args) <|> (handleC17 op args) <|> (handleC20 op args)
 
 partial def loop (hin hout : IO.FS.Stream) : IO Unit := do
   let line ← hin.getLine
